@@ -68,8 +68,8 @@ TEXT = {
             "used and free pages partition the file, an allocation never extends the file while a free page exists and returns the head, "
             "pages are reused in the order in which they were freed, page 0 is rejected, and what a double free does is stated (tail: nothing; "
             "elsewhere: the rest of the list is lost). Tie: exact page ids / errors / headers / free-list walks of ~100 allocator sequences "
-            "(1000 thorough) against the model, and checkOwnership + reuse-before-growth on the dump taken after every statement of ~44 SQL "
-            "histories (~10 000 dumps quick, ~200 000 thorough).",
+            "(1000 thorough) against the model, and checkOwnership + reuse-before-growth on the dump taken after every statement of 77 SQL "
+            "histories (~22 000 dumps quick, ~450 000 thorough).",
     "design_ref": "DESIGN.md §5 C11",
     "note": "Trusted: Lean kernel + propext/Quot.sound/Classical.choice; dump facade and harness canonicalisation; the rule deciding which "
             "catalog rows own a tree. Three defects were fixed in /repo (freed overflow page kept its next link; VACUUM leaked the tree of a "
